@@ -421,11 +421,13 @@ Fixpoint consume_delims (delims : text) (rest : text) (pos : nat) : nat :=
   | x :: r => if existsb (N.eqb x) delims then consume_delims delims r (S pos) else pos
   end.
 
-(** TableTranslator::MakeSentence(input, start, include_prefix_phrases = true) with max_homographs = 1, no user
-    dictionary, no encoder: state = (reachable vertices, word graph, collector of start position 0) *)
+(** TableTranslator::MakeSentence(input, start, include_prefix_phrases = true), no user dictionary, no encoder:
+    state = (reachable vertices, word graph, collector of start position 0).  [mhg] = max_homographs; collect_entries
+    appends the first (mhg - size) entries of the iterator; the iterator kept for the prefix phrases is untouched (it
+    is looked up again since fix f0d9311; before, for mhg > 1, a shallow copy shared - and advanced - its cursors) *)
 Definition ms_state := (list nat * wgraph * list (nat * list chunk))%type.
 
-Definition ms_at (pr : prism) (syls : list (nat * text)) (t : table) (delims : text) (inp : text)
+Definition ms_at (mhg : nat) (pr : prism) (syls : list (nat * text)) (t : table) (delims : text) (inp : text)
            (st : ms_state) (start_pos : nat) : ms_state :=
   let '(verts, wg, coll) := st in
   if negb (existsb (Nat.eqb start_pos) verts) then st
@@ -444,25 +446,27 @@ Definition ms_at (pr : prism) (syls : list (nat * text)) (t : table) (delims : t
                                      | Some _ => same_start
                                      | None => same_start ++ [(end_pos, [])]
                                      end in
-                  if 1 <=? length homographs then (verts, same_start0, coll)
+                  if mhg <=? length homographs then (verts, same_start0, coll)
                   else
                     let it := snd (lookup_words pr syls t (firstn mlen active) false 0) in
                     match iter_peek it with
                     | None => (verts, same_start0, coll)
-                    | Some d =>
+                    | Some _ =>
                         (end_pos :: verts,
-                         map (fun eh : nat * list dentry => if fst eh =? end_pos then (fst eh, snd eh ++ [d]) else eh) same_start0,
+                         map (fun eh : nat * list dentry =>
+                                if fst eh =? end_pos
+                                then (fst eh, snd eh ++ firstn (mhg - length homographs) (drain_all it)) else eh) same_start0,
                          if start_pos =? 0 then coll ++ [(consumed, it)] else coll)
                     end)
                (rev matches) (verts, [], coll) in
     let '(verts', same_start, coll') := r in
     (verts', wg ++ [(start_pos, same_start)], coll').
 
-Definition table_ms (pr : prism) (syls : list (nat * text)) (t : table) (delims : text) (inp : text) : ms_state :=
-  fold_left (ms_at pr syls t delims inp) (seq 0 (length inp)) ([0], [], []).
+Definition table_ms (mhg : nat) (pr : prism) (syls : list (nat * text)) (t : table) (delims : text) (inp : text) : ms_state :=
+  fold_left (ms_at mhg pr syls t delims inp) (seq 0 (length inp)) ([0], [], []).
 
-Definition table_wgraph (pr : prism) (syls : list (nat * text)) (t : table) (delims : text) (inp : text) : wgraph :=
-  snd (fst (table_ms pr syls t delims inp)).
+Definition table_wgraph (mhg : nat) (pr : prism) (syls : list (nat * text)) (t : table) (delims : text) (inp : text) : wgraph :=
+  snd (fst (table_ms mhg pr syls t delims inp)).
 
 (* SentenceTranslation after the sentence: the collector by descending code length *)
 Definition prefix_phrases (coll : list (nat * list chunk)) : list cand :=
@@ -470,11 +474,11 @@ Definition prefix_phrases (coll : list (nat * list chunk)) : list cand :=
               map (fun d => mkCand TTable 0 (fst ci) (d_text d) (d_code d)) (drain_all (snd ci)))
            (rev (group (flat_map (fun ci : nat * list chunk => map (fun c => (fst ci, c)) (snd ci)) coll))).
 
-Definition table_sentence (pr : prism) (syls : list (nat * text)) (t : table) (delims : text) (inp : text)
+Definition table_sentence (mhg : nat) (pr : prism) (syls : list (nat * text)) (t : table) (delims : text) (inp : text)
   : option (list cand) :=
-  match poet (table_wgraph pr syls t delims inp) (length inp) with
+  match poet (table_wgraph mhg pr syls t delims inp) (length inp) with
   | None => None
-  | Some s => Some (sentence_cand s :: prefix_phrases (snd (table_ms pr syls t delims inp)))
+  | Some s => Some (sentence_cand s :: prefix_phrases (snd (table_ms mhg pr syls t delims inp)))
   end.
 
 (** TableTranslator::Query *)
@@ -484,11 +488,11 @@ Definition table_entries (presort completion : bool) (pr : prism) (syls : list (
   then lazy_drain presort pr syls t code (lazy_fuel pr syls t code) (fetch_more presort pr syls t code ([], 10, 0))
   else drain_all (maybe_sort presort (snd (lookup_words pr syls t code false 0))).
 
-Definition table_query_gen (presort completion sentence_on : bool) (pr : prism) (syls : list (nat * text)) (t : table)
-           (delims : text) (inp : text) : list cand :=
+Definition table_query_gen (presort completion sentence_on : bool) (mhg : nat) (pr : prism) (syls : list (nat * text))
+           (t : table) (delims : text) (inp : text) : list cand :=
   let code := trim_right delims inp in
   match table_entries presort completion pr syls t code with
-  | [] => if sentence_on then match table_sentence pr syls t delims inp with
+  | [] => if sentence_on then match table_sentence mhg pr syls t delims inp with
                               | Some l => distinct [] l
                               | None => []
                               end
